@@ -30,7 +30,7 @@ Definition holds_o (pc : opc) : bool :=
 Definition holds_t (pc : tpc) : bool :=
   match pc with
   | TReadBase _ | TWriteBase _ _ | TReadTop _ _ | TSlot _ _ | TRollback _ _ | TUnlock _
-  | TPassCheck _ | TPassSlot _ _ | TPassBase _ => true
+  | TPassCheck _ | TPassSlot _ _ | TPassBase _ | TPeekCheck | TUnlockP => true
   | _ => false
   end.
 
@@ -278,9 +278,11 @@ Proof.
     destruct (top m - base m <=? 0); inversion E; subst; clear E; core_open_t C; core_goal_t; fin.
   - (* TLock *)
     destruct (Z.eqb_spec (lck m) 0) as [El|El].
-    + inversion E; subst; clear E. destruct (free_lock_excl _ _ _ _ _ _ C El) as [Ho _].
-      core_open_t C. core_goal_t; fin_o Ho C7.
-    + destruct m0; [discriminate|]. inversion E; subst; clear E. core_open_t C; core_goal_t; fin_o Ho C7.
+    + destruct (free_lock_excl _ _ _ _ _ _ C El) as [Ho _].
+      destruct m0; inversion E; subst; clear E; core_open_t C; core_goal_t; fin_o Ho C7.
+    + destruct m0; [discriminate| |]; inversion E; subst; clear E; unfold peek_start;
+        repeat match goal with |- context [if ?c then _ else _] => destruct c end;
+        core_open_t C; core_goal_t; fin.
   - (* TReadBase *)
     inversion E; subst; clear E. core_open_t C; core_goal_t; fin.
   - (* TWriteBase *)
@@ -297,17 +299,21 @@ Proof.
       occ_norm. lia.
   - (* TSlot *)
     destruct (thief_holds_excl _ _ _ _ _ _ C eq_refl) as [Ho Hl].
-    destruct m0 as [|[|]]; inversion E; subst; clear E; core_open_t C; destruct C8 as [C8 C8']; core_goal_t; fin_o Ho C7.
+    destruct m0 as [|[|]|]; inversion E; subst; clear E; core_open_t C; destruct C8 as [C8 C8']; core_goal_t; fin_o Ho C7.
     + intro y. rewrite occ_app, (C4 y). occ_norm. lia.
     + intro y. rewrite occ_app, (C4 y). ofr m o. occ_norm. lia.
     + assert (b2z (oc o) = 0 \/ b2z (oc o) = 1) by (destruct (oc o); cbn; lia).
       intro y. rewrite (C4 y). rewrite (zseg_cons (ptr m) (base m - 1)) by lia.
       replace (base m - 1 + 1) with (base m - 0) by lia. replace (base m - 1) with b by lia.
       occ_norm. lia.
+    + assert (b2z (oc o) = 0 \/ b2z (oc o) = 1) by (destruct (oc o); cbn; lia).
+      intro y. rewrite (C4 y). ofr m o. rewrite (zseg_cons (ptr m) (base m - 1)) by lia.
+      replace (base m - 1 + 1) with (base m - 0) by lia. replace (base m - 1) with b by lia.
+      occ_norm. lia.
   - (* TRollback *)
     destruct (thief_holds_excl _ _ _ _ _ _ C eq_refl) as [Ho Hl].
-    inversion E; subst; clear E. core_open_t C. core_goal_t; fin_o Ho C7.
-    + intro y. rewrite (C4 y). ofr m o. replace (base m - 1) with (b - 0) by lia. reflexivity.
+    destruct m0; inversion E; subst; clear E; core_open_t C; core_goal_t; fin_o Ho C7.
+    all: intro y; rewrite (C4 y); ofr m o; replace (base m - 1) with (b - 0) by lia; reflexivity.
   - (* TUnlock *)
     destruct (thief_holds_excl _ _ _ _ _ _ C eq_refl) as [Ho Hl].
     inversion E; subst; clear E. core_open_t C. core_goal_t; fin_o Ho C7.
@@ -341,5 +347,12 @@ Proof.
   - (* TPeekRead *)
     destruct (base m <? top m); inversion E; subst; clear E; core_open_t C; core_goal_t; fin.
   - (* TPeekSlot *)
+    inversion E; subst; clear E; core_open_t C; core_goal_t; fin.
+  - (* TPeekCheck *)
+    destruct (wptr m =? 0); inversion E; subst; clear E; core_open_t C; core_goal_t; fin.
+  - (* TUnlockP *)
+    destruct (thief_holds_excl _ _ _ _ _ _ C eq_refl) as [Ho Hl].
+    inversion E; subst; clear E. core_open_t C. core_goal_t; fin_o Ho C7.
+  - (* TPeekSeq *)
     inversion E; subst; clear E; core_open_t C; core_goal_t; fin.
 Qed.
